@@ -12,6 +12,8 @@ SIM="$ROOT/sim"
 export CARGO_NET_OFFLINE=true
 FAST="$SIM/target/simfast/ckc-sim"
 CHK="$SIM/target/simchk/ckc-sim"
+# processes that execute crate code run without address-space randomisation (see sim.rs child_command)
+NOASLR=""; [ -x /usr/bin/setarch ] && [ -z "${CKC_SIM_NO_SETARCH:-}" ] && NOASLR="setarch $(uname -m) -R"
 
 build() {
   # Rebuilds ckc-rs from the current working tree (path dependency) under both profiles.
@@ -86,11 +88,11 @@ case "${1:-}" in
       if ! has_atomics; then echo "REPLAY-RESULT no-violation (the current tree has no atomics: nothing to schedule)"; exit 0; fi
       conc_build || { echo "HARNESS-ERROR: shadow build failed (log: $SIM/target/conc-build.log)" >&2; exit 2; }
       if [ "$mode" = "shuttle-schedule" ]; then
-        "$CONCBIN" conc-replay --prop "$prop" --schedule "$(jq -r '.schedule_file' "$2")" | tee "$SIM/target/run/replay-out.txt"; rc=${PIPESTATUS[0]}
+        $NOASLR "$CONCBIN" conc-replay --prop "$prop" --schedule "$(jq -r '.schedule_file' "$2")" | tee "$SIM/target/run/replay-out.txt"; rc=${PIPESTATUS[0]}
         grep -q "REPLAY-RESULT class=$(jq -r '.expected.class' "$2") " "$SIM/target/run/replay-out.txt" && echo "reproduces the recorded violation exactly (class; the schedule is shuttle's): yes"
       else
         tmp="$SIM/target/run/replay-lane.json"; mkdir -p "$SIM/target/run"
-        "$CONCBIN" conc-lane --prop "$prop" --seed "$(jq -r '.verif_seed' "$2")" --lane "$(jq -r '.lane' "$2")" --iterations "$(jq -r '.iterations' "$2")" --dir "$SIM/target/run/replay-sched" --out "$tmp" >/dev/null 2>&1
+        $NOASLR "$CONCBIN" conc-lane --prop "$prop" --seed "$(jq -r '.verif_seed' "$2")" --lane "$(jq -r '.lane' "$2")" --iterations "$(jq -r '.iterations' "$2")" --dir "$SIM/target/run/replay-sched" --out "$tmp" >/dev/null 2>&1
         if [ "$(jq -r '.failed' "$tmp")" = true ]; then
           echo "REPLAY-RESULT class=$(jq -r '.violation.class' "$tmp") step=$(jq -r '.violation.step' "$tmp") digest=0x0"; jq '.violation' "$tmp"; rc=1
           [ "$(jq -r '.violation.class' "$tmp")" = "$(jq -r '.expected.class' "$2")" ] && echo "reproduces the recorded violation exactly (class; the whole lane was re-run from its seed): yes"
@@ -105,11 +107,11 @@ case "${1:-}" in
       fi
       exit $rc
     fi
-    "$FAST" replay "$2"
+    $NOASLR "$FAST" replay "$2"
     rc=$?
     if [ $rc -le 1 ] && [ -x "$CHK" ]; then
       echo "--- same file under the overflow-checked profile:"
-      "$CHK" replay "$2" --machine
+      $NOASLR "$CHK" replay "$2" --machine
       rc2=$?
       [ $rc2 -gt $rc ] && rc=$rc2
     fi
